@@ -730,3 +730,23 @@ Proof.
     lia.
   - apply last_index_of_none in E64. congruence.
 Qed.
+
+(* ---------- the character classes of the model are the toolchain's own table ---------- *)
+
+(* Model/NetURL.v's host_plain (= not shouldEscape(c, encodeHost) = ... encodeZone), query_plain and
+   is_hex_c, on every byte, are exactly the bits of net/url's generated encoding table as read off
+   GOROOT/src/net/url/encoding_table.go by the translator on every run *)
+Theorem neturl_classes_from_source c :
+  (c < 256)%N ->
+  host_plain c = mem_c c neturl_encodeHost /\ host_plain c = mem_c c neturl_encodeZone /\
+  query_plain c = mem_c c neturl_encodeQueryComponent /\ is_hex_c c = mem_c c neturl_hexChar.
+Proof.
+  intro Hc.
+  assert (G : (Bool.eqb (host_plain c) (mem_c c neturl_encodeHost) && Bool.eqb (host_plain c) (mem_c c neturl_encodeZone) &&
+               Bool.eqb (query_plain c) (mem_c c neturl_encodeQueryComponent) && Bool.eqb (is_hex_c c) (mem_c c neturl_hexChar)) = true).
+  { apply (forall_bytes 256 (fun c => Bool.eqb (host_plain c) (mem_c c neturl_encodeHost) && Bool.eqb (host_plain c) (mem_c c neturl_encodeZone) &&
+               Bool.eqb (query_plain c) (mem_c c neturl_encodeQueryComponent) && Bool.eqb (is_hex_c c) (mem_c c neturl_hexChar)));
+      [vm_compute; reflexivity | exact Hc]. }
+  apply andb_true_iff in G as [G G4]. apply andb_true_iff in G as [G G3]. apply andb_true_iff in G as [G1 G2].
+  repeat split; now apply Bool.eqb_prop.
+Qed.
